@@ -3,7 +3,7 @@
     Builder::{mock_build, build, build_for_pczt} applied to the calls of request [r]. *)
 From V.Lib Require Import Base MachInt.
 From V.Gen Require Import C14Consts.
-From V.C14 Require Import Model Spec Corr Wf Proofs Bridge SignModel SignProofs.
+From V.C14 Require Import Model Spec Corr Wf Proofs Bridge SignModel SignProofs AgreeC07.
 Local Open Scope Z_scope.
 
 (** A built result contains the requested transparent inputs and outputs in order and, per
@@ -137,6 +137,44 @@ Theorem C14_sign_p2sh_iff : forall (T : Type) keys (tx : T) i v m n,
   sign_input T keys tx i (mkCoin v (SpP2sh m n)) <> None <-> p2sh_signable keys (m, n) = true.
 Proof. exact sign_p2sh_iff. Qed.
 
+(** C07 x C14: the change strategy's fee is the builder's fee. For a proposal
+    [C07.compute_balance x c = Ok b] and the builder request carrying the same inputs, payments and
+    the proposed change ([req_of]; standard ZIP 317 rule, no ephemeral output, P2PKH inputs,
+    P2PKH/P2SH outputs, Orchard protocol version matching the height): the builder prices exactly
+    the shape C07 priced, change and padding included, and sees exactly C07's fee as its balance.
+    Hence the exact-balance check succeeds when C07's fee is the exact fee of the final shape, and
+    in C07's two over-payment cases (dust folded into the fee, zero transparent change omitted)
+    the builder answers ChangeRequired with the precise excess. *)
+Theorem C14_c07_agree : forall n x c b rt hd bal,
+  M7.compute_balance x c = Ok b -> compatible n x c -> rt <> Deferred ->
+  let r := req_of n x c b rt in
+  let shape_fee := S7.shape_fee x c (M7.change b) (M7.dummies b) 0 in
+  run_ops r [] (r_ops r) (init_hdr r) 0 = Ok hd ->
+  check_version r (r_ops r) (fst hd) = None ->
+  value_balance r = Ok bal ->
+  (rt = Pczt -> zip212_on n (M7.target_height c) = true) ->
+  (rt <> Pczt -> has_overwinter (fst hd) = true) ->
+  rule_fee RZip317 (req_shape r) = shape_fee /\
+  bal = M7.fee b /\
+  (M7.fee b = shape_fee -> build r = Ok (assemble r hd (M7.fee b))) /\
+  (M7.fee b <> shape_fee -> build r = Err (EChange (M7.fee b - shape_fee))).
+Proof. exact c07_c14_agree. Qed.
+
+(** The same without any assumption on the builder's checked arithmetic: with non-negative
+    amounts every partial sum of the builder is bounded by the proposal's input total. *)
+Theorem C14_c07_build : forall n x c b rt hd,
+  M7.compute_balance x c = Ok b -> compatible n x c -> rt <> Deferred -> nonneg_tx x ->
+  let r := req_of n x c b rt in
+  let shape_fee := S7.shape_fee x c (M7.change b) (M7.dummies b) 0 in
+  run_ops r [] (r_ops r) (init_hdr r) 0 = Ok hd ->
+  check_version r (r_ops r) (fst hd) = None ->
+  (rt = Pczt -> zip212_on n (M7.target_height c) = true) ->
+  (rt <> Pczt -> has_overwinter (fst hd) = true) ->
+  rule_fee RZip317 (req_shape r) = shape_fee /\
+  (M7.fee b = shape_fee -> build r = Ok (assemble r hd (M7.fee b))) /\
+  (M7.fee b <> shape_fee -> build r = Err (EChange (M7.fee b - shape_fee))).
+Proof. exact c07_c14_build. Qed.
+
 (** Non-vacuity. *)
 Definition ex_req : req :=
   mkReq Test 3000000 true true false (mkPad false None) (mkPad false None) []
@@ -164,3 +202,19 @@ Proof. eexists. split; [vm_compute; reflexivity|repeat split; vm_compute; reflex
 Example ex_p2sh_missing_key : build (mkReq Main 2726500 false false false (mkPad false None) (mkPad false None) [5]
         [TInSh 40000 2 3; TOut 38069 false] (RLin [1000; 3; 1; 0; 0; 0; 0]) Build) = Err ETransparentBuild.
 Proof. vm_compute. reflexivity. Qed.
+
+(** a proposal and the request built from it: the builder accepts it and pays C07's fee ... *)
+Definition ex_x (tin : Z) : M7.txin := {| M7.t_in := [(tin, M7.Known 150)]; M7.t_out := [(25000, 34)];
+  M7.s_type := M7.STx false; M7.s_in := []; M7.s_out := [20000];
+  M7.o_ver := M7.OrchardV2; M7.o_in := []; M7.o_out := []; M7.i_ver := M7.IronwoodV3; M7.i_in := []; M7.i_out := [] |}.
+Definition ex_c (da : M7.dust_action) : M7.config := {| M7.rule := M7.standard_rule; M7.strat := M7.Single;
+  M7.dust_act := da; M7.dust_thr := None; M7.fallback := M7.Sapling; M7.tchange_allowed := false;
+  M7.memo := false; M7.ephemeral := None; M7.network := M7.MainNet; M7.target_height := 3400000;
+  M7.anchor_height := 3399990; M7.interval := 10 |}.
+Example ex_agree : exists b t, M7.compute_balance (ex_x 60000) (ex_c M7.Reject) = Ok b /\ M7.fee b = 15000 /\
+  build (req_of Main (ex_x 60000) (ex_c M7.Reject) b Build) = Ok t /\ fee_paid t = 15000.
+Proof. do 2 eexists. split; [vm_compute; reflexivity|]. repeat split; vm_compute; reflexivity. Qed.
+(** ... and a proposal whose dust was folded into the fee is refused with the exact excess *)
+Example ex_agree_dust_folded : exists b, M7.compute_balance (ex_x 60100) (ex_c M7.AddDustToFee) = Ok b /\
+  M7.fee b = 15100 /\ build (req_of Main (ex_x 60100) (ex_c M7.AddDustToFee) b Build) = Err (EChange 100).
+Proof. eexists. split; [vm_compute; reflexivity|]. split; vm_compute; reflexivity. Qed.
